@@ -58,7 +58,7 @@ func New(conf config.Config) *Server {
 type Server struct {
 	mu            sync.Mutex
 	rateMu        sync.Mutex // separate from mu which is held for the duration of Shutdown
-	referrerMu    sync.Mutex // serializes the read-modify-write of referrers responses
+	referrerMu    sync.Mutex // serializes changes to referrers responses together with the index entry of the referrer
 	conf          config.Config
 	store         store.Store
 	log           *slog.Logger
